@@ -20,8 +20,8 @@
 (*                 first after the limit was still delivered)                *)
 (*   3 Packets     store / complete sub-packages                             *)
 (*   4 ReRequest   for transfers idle longer than Idle: one 0x8003           *)
-(* Output order as in the code: frames in stream order, then completed       *)
-(* messages, then re-requests.                                               *)
+(* Output order: frames in stream order, each completed message directly     *)
+(* after its last packet, then re-requests.                                  *)
 EXTENDS Frame, TLC
 
 Idle == 5000
@@ -67,13 +67,16 @@ PacketStep(rec, m, now) ==
               IF Missing(t) = {}
               THEN [rec |-> Without(r1, {m.id}),
                     done |-> <<[kind |-> "complete", id |-> m.id, serial |-> m.serial, total |-> m.total, no |-> m.no,
-                                body |-> Assembled(t)]>>]
+                                body |-> Assembled(t), ver |-> m.ver, phone |-> m.phone, raw |-> <<>>]>>]
               ELSE [rec |-> Ext(r1, m.id, t), done |-> <<>>]
 
+\* every frame is reported in stream order, and a completed message directly after the packet that
+\* completed it - wherever the read boundaries fall (the code used to append completions after all
+\* frames of the same read, which made the delivery order depend on TCP segmentation)
 RECURSIVE Packets(_, _, _, _, _)
 Packets(rec, ms, i, now, acc) ==
-    IF i > Len(ms) THEN [rec |-> rec, done |-> acc]
-    ELSE LET r == PacketStep(rec, ms[i], now) IN Packets(r.rec, ms, i + 1, now, acc \o r.done)
+    IF i > Len(ms) THEN [rec |-> rec, out |-> acc]
+    ELSE LET r == PacketStep(rec, ms[i], now) IN Packets(r.rec, ms, i + 1, now, Append(acc, ms[i]) \o r.done)
 
 \* 0x8003 body: original serial (first packet's), count, missing numbers ascending
 Body8003(serial, missing) == LET s == SortSeq(SetToSeq(missing), LAMBDA a, b : a < b) IN
@@ -98,7 +101,7 @@ Feed(x, chunk) ==
         p    == Packets(r0, ms, 1, x.now, <<>>)
         due  == DueForReRequest(p.rec, x.now)
     IN [x |-> [x EXCEPT !.hist = u.hist, !.rec = Touch(p.rec, due, x.now)],
-        out |-> ms \o p.done,
+        out |-> p.out,
         rereq |-> {ReReq(p.rec, id) : id \in due},
         err |-> u.err]
 
